@@ -15,6 +15,13 @@ pub fn bump(mut d: D4, limb: usize) -> D4 {
     d[limb] = (d[limb] + 1) % P;
     d
 }
+/// A different digest with the same limb sum (limb 0 + 1, limb 1 - 1): separates a
+/// limb-wise comparison from one that aggregates the limb differences first.
+pub fn shift(mut d: D4) -> D4 {
+    d[0] = (d[0] + 1) % P;
+    d[1] = if d[1] == 0 { P - 1 } else { d[1] - 1 };
+    d
+}
 
 /// Field alphabets of a slot (index vector -> Slot).
 pub struct Alpha {
@@ -33,11 +40,11 @@ impl Alpha {
         let b1 = dig(1);
         let x = dig(10);
         Self {
-            bh: vec![Z4, b1, dig(2), bump(b1, 3)],
+            bh: vec![Z4, b1, dig(2), bump(b1, 3), shift(b1)],
             asset: vec![0, 1],
             fee: vec![0, 7],
-            nullifier: vec![dig(20), dig(21), bump(dig(20), 2), dig(22)],
-            exits: vec![Z4, x, dig(11), bump(x, 1)],
+            nullifier: vec![dig(20), dig(21), bump(dig(20), 2), dig(22), shift(dig(20))],
+            exits: vec![Z4, x, dig(11), bump(x, 1), shift(x)],
             amounts: vec![0, 1, 5, 1 << 31, TWO32 - 1],
             pre: vec![dig(30), dig(31)],
             dnum: vec![0, 77],
